@@ -28,7 +28,10 @@ def evIdx? : String → Option Nat
   | "pass" => some 0 | "block" => some 1 | "complete" => some 2 | "error" => some 3 | "rt" => some 4 | _ => none
 
 def parseOp? : List String → Option OpSpec
-  | ["add", ev, amt] => do some (.add (← evIdx? ev) (← amt.toNat?))
+  | ["add", ev, amt] => do
+      let a ← amt.toInt?
+      -- a negative amount (the API takes int64: decrements, roll-backs) goes to the *negative* run, see `parseProg2?`
+      some (.add (← evIdx? ev) a.toNat)
   | ["conc", c] => do some (.conc (← c.toNat?))
   | ["count", ev] => do some (.count (← evIdx? ev))
   -- `values <ev>` = `BucketLeapArray.Values(now)` followed by the caller's own per-bucket `Get(ev)`: the same refresh, scan
@@ -45,6 +48,20 @@ def splitSemi (ts : List String) : List (List String) :=
 
 def parseProg? (ts : List String) : Option (List OpSpec) := (splitSemi ts).mapM parseOp?
 
+/-- Signed amounts.  The model's counters are naturals; no control decision of any step depends on a counter's content
+    (only `AddRt` compares its *amount* with `minRt`), so a run with signed amounts is the difference of two runs of the
+    model under the same schedule: the **positive** run records `max a 0`, the **negative** run `max (-a) 0` (rt amounts,
+    which must be ≥ 0, are recorded identically in both and read from the positive one).  Both runs go through the same
+    program counters; every counter value of the signed run is `positive − negative`. -/
+def negOp? : List String → Option OpSpec
+  | ["add", ev, amt] => do
+      let a ← amt.toInt?
+      let e ← evIdx? ev
+      if e = evRt then (if a < 0 then none else some (.add e a.toNat)) else some (.add e (-a).toNat)
+  | ts => parseOp? ts
+
+def parseProgNeg? (ts : List String) : Option (List OpSpec) := (splitSemi ts).mapM negOp?
+
 def parseEntry? (t : String) : Option Entry :=
   if t.startsWith "tick:" then (t.drop 5).toString.toNat?.map Entry.tick else t.toNat?.map Entry.step
 
@@ -53,9 +70,11 @@ structure St where
   sh : Shared := mkShared 1 1 1 1
   clock : Nat := 0
   threads : Array (Nat × List OpSpec) := #[]
+  shNeg : Shared := mkShared 1 1 1 1                   -- the negative run (see `negOp?`)
+  threadsNeg : Array (Nat × List OpSpec) := #[]
   -- oracle side
   dead : Bool := false                                 -- oracle side: an earlier round of the case did not complete
-  hist : List (Nat × Nat × Nat × Bool × Bool) := []      -- completed adds: (now, ev, amt, sure, wild)
+  hist : List (Nat × Nat × Int × Bool × Bool) := []      -- completed adds: (now, ev, amt, sure, wild)
 
 /-! ## model side -/
 
@@ -101,19 +120,27 @@ def runRound (sh : Shared) (clock : Nat) (threads : Array (Nat × List OpSpec)) 
   -- 3. drain
   drainRec 100000 r2
 
-def showVal : Option Nat → String
+def showVal : Option Int → String
   | none => "-" | some v => toString v
 
-def showFinal (sh : Shared) (clock : Nat) : String :=
+def sgn (p q : Nat) : Int := (p : Int) - (q : Int)
+
+def showFinal (sh shN : Shared) (clock : Nat) : String :=
   showList ((List.range sh.n).filterMap fun j =>
     let s := sh.start j
     if deprecated (sh.n * sh.L) clock s then none
-    else some (s!"{s}:{sh.cnt j 0}:{sh.cnt j 1}:{sh.cnt j 2}:{sh.cnt j 3}:{sh.cnt j 4}:{sh.minRt j}:{sh.maxConc j}"))
+    else some (s!"{s}:{sgn (sh.cnt j 0) (shN.cnt j 0)}:{sgn (sh.cnt j 1) (shN.cnt j 1)}:{sgn (sh.cnt j 2) (shN.cnt j 2)}:{sgn (sh.cnt j 3) (shN.cnt j 3)}:{sh.cnt j 4}:{sh.minRt j}:{sh.maxConc j}"))
 
-def showRound (r : Rec) : String :=
-  let res := "|".intercalate (r.c.th.map fun t => ",".intercalate (t.res.map fun x => s!"{x.now}:{showVal x.val}"))
+/-- the observation of the signed run = positive run − negative run (same schedule, same program counters) -/
+def showRound (r rn : Rec) : String :=
+  if r.pts != rn.pts then "bad-model-split" else
+  let res := "|".intercalate ((r.c.th.zip rn.c.th).map fun tt => ",".intercalate ((tt.1.res.zip tt.2.res).map fun xx =>
+    let v : Option Int := match xx.1.val, xx.2.val with
+      | some a, some b => some (if xx.1.op.ev = evRt then (a : Int) else sgn a b)
+      | _, _ => none
+    s!"{xx.1.now}:{showVal v}"))
   let pts := "|".intercalate (r.pts.toList.map fun p => ",".intercalate p.toList)
-  s!"[round] res=[{res}] pts=[{pts}] final={showFinal r.c.sh r.c.clock} clock={r.c.clock}"
+  s!"[round] res=[{res}] pts=[{pts}] final={showFinal r.c.sh rn.c.sh r.c.clock} clock={r.c.clock}"
 
 /-! ## oracle side: parsing the implementation's observation -/
 
@@ -127,19 +154,21 @@ def field? (fs : List String) (name : String) : Option String :=
 def splitNE (s : String) (sep : String) : List String := (s.splitOn sep).filter (· ≠ "")
 
 /-- `res=[999:-,1000:7|1000:3]` → per thread list of (now, value) -/
-def parseRes? (s : String) : Option (List (List (Nat × Option Nat))) :=
+def parseRes? (s : String) : Option (List (List (Nat × Option Int))) :=
   ((stripBr s).splitOn "|").mapM fun th =>
     (splitNE th ",").mapM fun x =>
       match x.splitOn ":" with
       | [a, b] => do
           let n ← a.toNat?
-          if b == "-" then some (n, none) else do some (n, some (← b.toNat?))
+          if b == "-" then some (n, none) else do some (n, some (← b.toInt?))
       | _ => none
 
-def parseFinal? (s : String) : Option (List (List Nat)) :=
-  (splitNE (stripBr s) ",").mapM fun x => (x.splitOn ":").mapM (·.toNat?)
+def parseFinal? (s : String) : Option (List (List Int)) :=
+  (splitNE (stripBr s) ",").mapM fun x => (x.splitOn ":").mapM (·.toInt?)
 
-def sumL (xs : List Nat) : Nat := xs.foldl (· + ·) 0
+def sumL (xs : List Int) : Int := xs.foldl (· + ·) 0
+def posP (a : Int) : Int := if a > 0 then a else 0
+def negP (a : Int) : Int := if a < 0 then -a else 0
 
 /-- Judge one round of the implementation's trace.
 
@@ -156,55 +185,68 @@ def sumL (xs : List Nat) : Nat := xs.foldl (· + ·) 0
   timestamp inside it, and at least what was recorded for sure.
 
 Stall condition of a round: final clock − smallest clock reading of its operations ≤ one bucket length. -/
-def judge (s : St) (results : List (List (Nat × Option Nat))) (pts : String) (final : List (List Nat)) (fclock : Nat) :
-    String × List (Nat × Nat × Nat × Bool × Bool) :=
+def judge (s : St) (results : List (List (Nat × Option Int))) (pts : String) (final : List (List Int)) (fclock : Nat) :
+    String × List (Nat × Nat × Int × Bool × Bool) :=
   let n := s.sh.n
   let L := s.sh.L
   let I := n * L
   let progs := s.threads.toList.map (·.2)
+  let progsN := s.threadsNeg.toList.map (·.2)
   let wellFormed := progs.length == results.length && (progs.zip results).all fun pr => pr.1.length == pr.2.length
   if !wellFormed then ("bad results-shape", []) else
-  -- (tid, pos, op, now, val)
-  let ops : List (Nat × Nat × OpSpec × Nat × Option Nat) :=
-    ((List.range progs.length).zip (progs.zip results)).flatMap fun tp =>
-      ((List.range tp.2.1.length).zip (tp.2.1.zip tp.2.2)).map fun x => (tp.1, x.1, x.2.1, x.2.2.1, x.2.2.2)
+  -- signed amount of every operation (positive run − negative run)
+  let amts : List (List Int) := (progs.zip progsN).map fun pp => (pp.1.zip pp.2).map fun oo =>
+    match oo.1, oo.2 with
+    | .add ev a, .add _ b => if ev = evRt then (a : Int) else sgn a b
+    | _, _ => 0
+  -- (tid, pos, op, now, val, signed amount)
+  let ops : List (Nat × Nat × OpSpec × Nat × Option Int × Int) :=
+    ((List.range progs.length).zip ((progs.zip results).zip amts)).flatMap fun tp =>
+      ((List.range tp.2.1.1.length).zip ((tp.2.1.1.zip tp.2.1.2).zip tp.2.2)).map fun x =>
+        (tp.1, x.1, x.2.1.1, x.2.1.2.1, x.2.1.2.2, x.2.2)
   let multi := decide (progs.length > 1)
   let anyReset := (pts.splitOn "bla.reset.start").length > 1
   let minNow := ops.foldl (fun m o => min m o.2.2.2.1) fclock
   let stallOk := decide (fclock - minNow ≤ L) || !multi
   let overlap := multi && anyReset
   let sure := !overlap && stallOk && decide (n ≥ 2)
-  -- adds of the round: (tid, pos, now, ev, amt)
-  let roundAdds : List (Nat × Nat × Nat × Nat × Nat) := ops.filterMap fun o => match o.2.2.1 with
-    | .add ev amt => some (o.1, o.2.1, o.2.2.2.1, ev, amt) | _ => none
+  -- adds of the round: (tid, pos, now, ev, signed amt)
+  let roundAdds : List (Nat × Nat × Nat × Nat × Int) := ops.filterMap fun o => match o.2.2.1 with
+    | .add ev _ => some (o.1, o.2.1, o.2.2.2.1, ev, o.2.2.2.2.2) | _ => none
   -- adds of a round that broke the stall condition may have been credited to a later bucket: `wild`
   let wild := !stallOk
   let newHist := roundAdds.map fun a => (a.2.2.1, a.2.2.2.1, a.2.2.2.2, sure, wild)
-  let allAdds : List (Nat × Nat × Nat × Bool × Bool) := s.hist ++ newHist
+  let allAdds : List (Nat × Nat × Int × Bool × Bool) := s.hist ++ newHist
   let readVerdicts : List String := ops.filterMap fun o =>
     let tid := o.1
     let pos := o.2.1
     let now := o.2.2.2.1
-    match o.2.2.1, o.2.2.2.2 with
+    match o.2.2.1, o.2.2.2.2.1 with
     | .count ev, some v | .viewsum ev, some v =>
       let isView := match o.2.2.1 with | .viewsum _ => true | _ => false
-      let started : List (Nat × Nat × Nat × Bool × Bool) := s.hist ++ roundAdds.filterMap fun a =>
+      let started : List (Nat × Nat × Int × Bool × Bool) := s.hist ++ roundAdds.filterMap fun a =>
         if a.1 ≠ tid ∨ a.2.1 < pos then some (a.2.2.1, a.2.2.2.1, a.2.2.2.2, sure, wild) else none
-      let before : List (Nat × Nat × Nat × Bool × Bool) := s.hist ++ roundAdds.filterMap fun a =>
+      let before : List (Nat × Nat × Int × Bool × Bool) := s.hist ++ roundAdds.filterMap fun a =>
         if a.1 = tid ∧ a.2.1 < pos then some (a.2.2.1, a.2.2.2.1, a.2.2.2.2, sure, wild) else none
-      let total := sumL (started.filterMap fun a => if a.2.1 = ev then some a.2.2.1 else none)
+      -- with signed amounts: a read is a sum over a subset of the started adds, so it is at most the sum of their positive parts
+      let total := sumL (started.filterMap fun a => if a.2.1 = ev then some (posP a.2.2.1) else none)
       if v > total then some s!"bad invented: read {v} of event {ev} at {now}, only {total} recorded" else
       if n < 2 then none else
       let rg := rangeOf L s.sh.Iv now
       let inWin (b : Nat) (strict : Bool) : Bool :=
         !deprecated I now b && (!strict || decide (now - b < I)) && (!isView || decide (rg.1 ≤ b ∧ b ≤ rg.2))
-      let upper := sumL (started.filterMap fun a => if a.2.1 = ev && (a.2.2.2.2 || inWin (cbs L a.1) true) then some a.2.2.1 else none)
-      let lower := sumL (before.filterMap fun a => if a.2.1 = ev && a.2.2.2.1 && inWin (cbs L a.1) true then some a.2.2.1 else none)
+      let quiet := !overlap && stallOk
+      -- recorded for sure before this read, inside its window: present in full (positive and negative parts)
+      let bsw := before.filter fun a => a.2.1 = ev && a.2.2.2.1 && inWin (cbs L a.1) true
+      let inW := started.filter fun a => a.2.1 = ev && (a.2.2.2.2 || inWin (cbs L a.1) true)
+      let upper0 := sumL (inW.map fun a => posP a.2.2.1)
+      let upper := if quiet then upper0 - sumL (bsw.map fun a => negP a.2.2.1) else upper0
+      let lower := sumL (bsw.map fun a => posP a.2.2.1) - sumL (inW.map fun a => negP a.2.2.1)
       if v > upper then
         if !stallOk then none
         else if overlap then some "known:stale-counters-visible"
         else some s!"bad expired-visible: read {v} of event {ev} at {now}, only {upper} recorded in its window"
-      else if v < lower && !overlap && stallOk then
+      else if v < lower && quiet then
         some s!"bad lost: read {v} of event {ev} at {now}, at least {lower} recorded in its window before"
       else none
     | _, _ => none
@@ -213,8 +255,10 @@ def judge (s : St) (results : List (List (Nat × Option Nat))) (pts : String) (f
     | st :: cs =>
       (List.range 5).filterMap fun ev =>
         let c := cs.getD ev 0
-        let own := sumL (allAdds.filterMap fun a => if a.2.1 = ev && (a.2.2.2.2 || cbs L a.1 = st) then some a.2.2.1 else none)
-        let ownSure := sumL (allAdds.filterMap fun a => if a.2.1 = ev && cbs L a.1 = st && a.2.2.2.1 then some a.2.2.1 else none)
+        let mine := allAdds.filter fun a => a.2.1 = ev && (a.2.2.2.2 || (cbs L a.1 : Int) = st)
+        let mineSure := allAdds.filter fun a => a.2.1 = ev && (cbs L a.1 : Int) = st && a.2.2.2.1
+        let own := sumL (mine.map fun a => posP a.2.2.1) - sumL (mineSure.map fun a => negP a.2.2.1)
+        let ownSure := sumL (mineSure.map fun a => posP a.2.2.1) - sumL (mine.map fun a => negP a.2.2.1)
         if n < 2 then none
         else if !stallOk then none
         else if c > own then some s!"bad foreign-credit: bucket {st} holds {c} of event {ev}, only {own} recorded with a timestamp in it"
@@ -235,46 +279,47 @@ def step (oracle : Bool) (s : St) (ts : List String) (line : String) : St × Opt
   | ["la.new", n, I, t] => match n.toNat?, I.toNat?, t.toNat? with
       | some n, some I, some t =>
         if n = 0 ∨ I % n ≠ 0 ∨ I / n = 0 ∨ t = 0 then (s, some "bad-op") else
-        ({ ok := true, sh := mkShared n (I / n) I t, clock := t }, none)
+        ({ ok := true, sh := mkShared n (I / n) I t, shNeg := mkShared n (I / n) I t, clock := t }, none)
       | _, _, _ => (s, some "bad-op")
   | ["view", sc, Iv] => match sc.toNat?, Iv.toNat? with
       | some sc, some Iv =>
         if !s.ok then (s, some "bad-op") else
         let c := validView sc Iv s.sh.n (s.sh.n * s.sh.L)
         if oracle then ({ s with sh := if (resPart line) == some "ok" then { s.sh with Iv := Iv } else s.sh }, none)
-        else if c = 0 then ({ s with sh := { s.sh with Iv := Iv } }, some "ok") else (s, some s!"err {c}")
+        else if c = 0 then ({ s with sh := { s.sh with Iv := Iv }, shNeg := { s.shNeg with Iv := Iv } }, some "ok") else (s, some s!"err {c}")
       | _, _ => (s, some "bad-op")
-  | "thread" :: tid :: ck :: rest => match tid.toNat?, ck.toNat?, parseProg? rest with
-      | some tid, some ck, some prog =>
+  | "thread" :: tid :: ck :: rest => match tid.toNat?, ck.toNat?, parseProg? rest, parseProgNeg? rest with
+      | some tid, some ck, some prog, some progN =>
         let last := (s.threads.back?.map (·.1)).getD s.clock
         if !s.ok ∨ tid ≠ s.threads.size ∨ ck < last then (s, some "bad-op")
-        else ({ s with threads := s.threads.push (ck, prog) }, none)
-      | _, _, _ => (s, some "bad-op")
+        else ({ s with threads := s.threads.push (ck, prog), threadsNeg := s.threadsNeg.push (ck, progN) }, none)
+      | _, _, _, _ => (s, some "bad-op")
   | "sched" :: es => match es.mapM parseEntry? with
       | none => (s, some "bad-op")
       | some es =>
         if !s.ok ∨ s.threads.size = 0 then (s, some "bad-op") else
         if oracle then
           match resPart line with
-          | none => ({ s with threads := #[] }, some "?")
+          | none => ({ s with threads := #[], threadsNeg := #[] }, some "?")
           | some r =>
-            if s.dead then ({ s with threads := #[] }, some "?") else
+            if s.dead then ({ s with threads := #[], threadsNeg := #[] }, some "?") else
             let fs := toks r
             match (field? fs "res").bind parseRes?, field? fs "pts", (field? fs "final").bind parseFinal?,
                   (field? fs "clock").bind (·.toNat?) with
             | some res, some pts, some fin, some ck =>
               let (v, nh) := judge s res pts fin ck
-              ({ s with threads := #[], clock := ck, hist := s.hist ++ nh }, some v)
+              ({ s with threads := #[], threadsNeg := #[], clock := ck, hist := s.hist ++ nh }, some v)
             | _, _, _, _ =>
               -- the scheduler gave up: a thread neither finished nor parked (step bound / watchdog) — "every recorder
               -- and reader terminates" fails on this schedule
-              if r.startsWith "sched-error" then ({ s with threads := #[], dead := true }, some ("bad not-terminating: " ++ r))
+              if r.startsWith "sched-error" then ({ s with threads := #[], threadsNeg := #[], dead := true }, some ("bad not-terminating: " ++ r))
               -- a blocking lock around yield points / a round skipped after one: the harness cannot replay it, no claim
-              else if r.startsWith "sched-blocked" || r.startsWith "sched-skipped" then ({ s with threads := #[], dead := true }, some "?")
-              else ({ s with threads := #[] }, some ("bad unparsable " ++ r))
+              else if r.startsWith "sched-blocked" || r.startsWith "sched-skipped" then ({ s with threads := #[], threadsNeg := #[], dead := true }, some "?")
+              else ({ s with threads := #[], threadsNeg := #[] }, some ("bad unparsable " ++ r))
         else
           let r := runRound s.sh s.clock s.threads es
-          ({ s with sh := r.c.sh, clock := r.c.clock, threads := #[] }, some (showRound r))
+          let rn := runRound s.shNeg s.clock s.threadsNeg es
+          ({ s with sh := r.c.sh, shNeg := rn.c.sh, clock := r.c.clock, threads := #[], threadsNeg := #[] }, some (showRound r rn))
   | "stress" :: _ =>
       -- randomized parallel stress on the real scheduler (implementation only): the model has nothing to add
       if oracle then
@@ -311,7 +356,7 @@ partial def enumLoop : IO Unit := do
         let (xs, trunc) := dfs l d r.c [] (#[], false)
         stdout.putStrLn s!"# {cid} {xs.size} {if trunc then "truncated" else "complete"}"
         for x in xs do stdout.putStrLn s!"{cid} sched {x}"
-        go { st with threads := #[] } cid
+        go { st with threads := #[], threadsNeg := #[] } cid
       | _, _ => go st cid
     | [] => go st cid
     | ts => go (step false st ts line).1 cid
